@@ -47,3 +47,8 @@ claim('C06', 'guard dominance and who-may-write rules on the per-atom table; ali
       'Decides structural necessary conditions: all insertions pass the natoms-rows/atype>=1 guard and nothing else writes the table; copying accessors return fresh storage on every path; extend/atoms_extend/getitem/deepcopy/df/atoms_ix/supersize/rotate '
       'do not write to their operands; Atoms.extend, evaluated on two model Atoms with differing property sets, yields receiver rows then appended rows with zeros for missing values; appended scaled positions land in rows [natoms_self:]; '
       'symbols/masses padding bounds agree. Equality with a record-per-atom model over arbitrary histories is not decided.', 'DESIGN.md §6 C06')
+
+claim('C04', 'model evaluation of System.supersize (symbolic positions, tagged property); exact-rational checks of the centering tables extracted from the source; evaluation of rotate() fragments on symbolic integer indices; guard-dominance, anchoring and effect rules',
+      'Decides structural necessary conditions: supersize yields each atom at each lattice translation of the replication box exactly once with its own property row, vectors×m and origin+lo·V; the eight centering table pairs are inverse with determinants (1,2,2,2,2,4,3,3) '
+      'and the converter\'s basis positions are their lattice points; converters rotate by those tables; rotate() refuses non-integer/zero-volume input, bounds by (min-1,max+1) over eight corners, constructs only after the expected-count test, keeps [0,1) atoms, '
+      'and introduces no net translation; operands are not written. Which atoms a concrete floating-point cell keeps is not decided. One known finding (far-from-zero origin refused).', 'DESIGN.md §6 C04')
